@@ -188,6 +188,14 @@ func (s *v30tSim) check(when string, sn *v30tSnap) bool {
 				} else {
 					out++
 				}
+				if !sn.reserved[p] && sn.rep[p] < BannedThresholdValue && len(sn.sets) > 1 {
+					// Two-set configurations cannot be built through the exported API (production uses one set). With two
+					// sets a disconnect in ONE set costs the peer reputation (disconnectReputationChange) and can take it
+					// below the threshold while its connection in the OTHER set stays up; that cross-set effect is outside
+					// what the property describes for the node's peer set, so it is counted, not judged.
+					s.c.Count("tick_banned_connected_in_two_set_config_not_judged", 1)
+					continue
+				}
 				if !sn.reserved[p] && sn.rep[p] < BannedThresholdValue {
 					s.c.Eval(1)
 					s.viol("banned-connected", fmt.Sprintf("%s: set %d: non-reserved peer %s is connected with reputation %d below the ban threshold %d", when, i, v30Name(p), sn.rep[p], BannedThresholdValue), sn, nil)
